@@ -31,7 +31,8 @@ class ParallelSourcePlugin(Plugin):
         while True:
             # Scan for plugins we can inline
             for p in plugins.values():
-                if p.parallel and all([d in sub_plugins for d in p.depends_on]):
+                # (all() of no dependencies is True: a source is never downstream of start_from)
+                if p.parallel and len(p.depends_on) and all([d in sub_plugins for d in p.depends_on]):
                     for d in p.provides:
                         sub_plugins[d] = p
                         if d in plugins:
